@@ -27,6 +27,8 @@ func main() {
 		cmdVerify(os.Args[2:])
 	case "check":
 		cmdCheck(os.Args[2:])
+	case "bindings":
+		cmdBindings(os.Args[2:])
 	default:
 		fmt.Fprintln(os.Stderr, "unknown command")
 		os.Exit(2)
@@ -68,6 +70,7 @@ func setup(repo, verif string) *Engine {
 		fatal("load: %v", err)
 	}
 	e.expandMods()
+	e.loadBindings()
 	for _, c := range cs.M {
 		if len(c.NoAlloc) > 0 {
 			e.loadEscapes(pats)
